@@ -112,6 +112,15 @@ Theorem C10_split_limit : forall mt li s lim obs li',
 Proof. exact split_limit. Qed.
 Print Assumptions C10_split_limit.
 
+(* 15.5.4.11, any matcher, any returned text: the result of a function replacer is
+   spliced in verbatim, its $-sequences are not table-22 patterns *)
+Theorem C10_replace_function_verbatim : forall mt li s ret i e c l,
+  exec_spec mt false 0 s = Some (Some (i, e, c), l) ->
+  replace_spec mt false li s (RFun ret) =
+    Some (OS (sub s 0 i ++ fn_repl ret c ++ skipn e s) :: fn_log s (i, e, c), li).
+Proof. exact replace_fun_verbatim. Qed.
+Print Assumptions C10_replace_function_verbatim.
+
 (* otto's split on the empty subject is 15.5.4.14 step 11, for any engine and any
    limit (code as repaired by /repo a84f554; given = a limit argument was passed) *)
 Theorem C10_split_empty_subject : forall mt li lim given,
